@@ -11,12 +11,14 @@ Fixpoint spl_eqb (a b : list spcol) : bool := match a, b with [], [] => true | x
 Inductive spcase :=
 | SDummies (v : list (option key)) (levels : list key) (drop_first : bool) (exp_levels : list key) (exp_cols : list spcol)
 | SMul (a b : spcol) (exp : spcol)
-| SDense (c : list Qc) (exp : spcol).
+| SDense (c : list Qc) (exp : spcol)
+| STerm (scale : Qc) (fs : list (list (key * spcol))) (exp : list (key * spcol)).
 Definition spcheck (c : spcase) : bool :=
   match c with
   | SDummies v lv df el ec => let '(l, cols) := sp_dummies v lv df in kl_eqb l el && spl_eqb cols ec
   | SMul a b e => spc_eqb (sp_mul a b) e
   | SDense d e => spc_eqb (sp_of_dense d 0) e
+  | STerm sc fs e => let r := sp_term_cols sc fs in kl_eqb (map fst r) (map fst e) && spl_eqb (map snd r) (map snd e)
   end.
 Fixpoint chk_sparse (cs : list spcase) (i : nat) : nat * list nat :=
   match cs with [] => (O, []) | c :: r => let '(m, fl) := chk_sparse r (S i) in if spcheck c then (m, fl) else (S m, i :: fl) end.
